@@ -31,7 +31,7 @@ HEADER_SPEC = ('From Coq Require Import ZArith List Bool.\nRequire Import GT.PyB
 HEADER_MODEL = HEADER_SPEC + 'Require Import GT.ScriptModel GT.BuildCorr.\n'
 CORPUS = os.path.join(common.VERIF, 'corpus', 'C08.jsonl')
 KNOWN_FALLBACK = os.path.join(common.VERIF, 'corpus', 'C08.known.json')
-KF_CLASSES = ['kf_C08_swap_cross_type', 'kf_C08_swap_zero_size']
+KF_CLASSES = ['kf_C08_swap_cross_type', 'kf_C08_swap_zero_size', 'kf_C08_mixed_key_pairing']
 
 
 # ------------------------------------------------------------------ transport of documents
@@ -96,22 +96,44 @@ def impl_case(item):
         return {'ta': rec['a'], 'tb': rec['b'], 'cost': _top_cost(rec['script']), 'matchings': rec['matchings'],
                 'orders': rec['orders']}
     vs = [(dec(a), dec(b)) for a, b in item['vars']]
-    builders = entry_points(mk)
-    return {'eps': {ep: _perm_through(builders[ep], vs, item.get('no_oracle')) for ep in item.get('eps', ENTRY_POINTS)}}
+    builders = entry_points(mk, item.get('dir'))
+    try:
+        return {'eps': {ep: _perm_through(builders[ep], vs, item.get('no_oracle')) for ep in item.get('eps', ENTRY_POINTS)}}
+    finally:
+        if item.get('dir'):
+            import shutil
+            shutil.rmtree(os.path.join(item['dir'], f'c{os.getpid()}'), ignore_errors=True)
 
 
 ENTRY_POINTS = ['json', 'basic', 'pyobj']
 
 
-def entry_points(mk):
-    """The three ways plain Python data becomes a tree: graphtage.json.build_tree (all file loaders),
-    graphtage.builder.BasicBuilder(options).build_tree, graphtage.pydiff.build_tree (PyObjBuilder; pydiff.diff)."""
+def entry_points(mk, dirname=None):
+    """The ways plain data becomes a tree: graphtage.json.build_tree (all file loaders),
+    graphtage.builder.BasicBuilder(options).build_tree, graphtage.pydiff.build_tree (PyObjBuilder; pydiff.diff), and - for
+    mappings whose keys are not all strings - a YAML file read by the yaml Filetype."""
     from graphtage import json as gjson
     from graphtage import builder as gbuilder
     from graphtage import pydiff as gpydiff
+
+    def through_yaml(v):
+        import graphtage
+        import yaml
+        d = os.path.join(dirname, f'c{os.getpid()}')
+        os.makedirs(d, exist_ok=True)
+        path = os.path.join(d, 'doc.yaml')
+        text = yaml.dump(v, sort_keys=False, default_flow_style=False, allow_unicode=True)
+        back = yaml.safe_load(text)
+        if repr(back) != repr(v):                      # the harness's own writer must be faithful (order and types of keys)
+            raise RuntimeError(f'yaml.dump does not round-trip {v!r}: {back!r}')
+        with open(path, 'w') as f:
+            f.write(text)
+        return graphtage.FILETYPES_BY_TYPENAME['yaml'].build_tree(path, mk())
+
     return {'json': lambda v: gjson.build_tree(v, mk()),
             'basic': lambda v: gbuilder.BasicBuilder(mk()).build_tree(v),
-            'pyobj': lambda v: gpydiff.build_tree(v, mk())}
+            'pyobj': lambda v: gpydiff.build_tree(v, mk()),
+            'yaml': through_yaml}
 
 
 def _perm_through(bt, vs, no_oracle):
@@ -324,35 +346,66 @@ def ok_doc(v):
     return True
 
 
-MIXED_KEYS = [1, 2, 9, 10, 11, -1, '1', '9', '10', 'a', 'b', '', 0.5, 9.5, 2.0, True, False, 'True', '0.5', 100, '1e2']
+MIXED_KEYS = [1, 2, 9, 10, 11, -1, '1', '9', '10', 'a', 'b', '', 0.5, 9.5, 2.0, True, False, 'True', '0.5', 100, '1e2', '15', '16']
+# three keys that LeafNode.__lt__ orders in a cycle: x < y by value, str(y) < z and z < str(x) as strings
+KEY_CYCLES = [(2, 10, '15'), (False, 100, '1e2'), (9, 10, '11'), (3, 20, '25'), (2.5, 10, '12'), (5, 40.0, '45')]
+MIXED_EPS = ['yaml', 'basic', 'pyobj']
 
 
-def gen_mixed(tier, rng):
-    """YAML-like mappings with keys of mixed type: sorted() falls back to comparing str(), the order is not total.
-    Outside the theorems; reported in the evidence."""
+def gen_mixed(tier, rng, workdir):
+    """Mappings with keys of mixed type (YAML files, Python objects): LeafNode.__lt__ falls back to comparing str(), the
+    order is not total (cycles, incomparable keys) and sorted() in DictNode.from_dict is not canonical.  The theorems
+    assume string keys; the property does not, so cost invariance and copy-equality are judged here too."""
     items = []
-    n, K = (36, 5) if tier == 'quick' else (400, 8)
+    n, K = (72, 6) if tier == 'quick' else (600, 10)
     for k in range(n):
-        def mk(d):
-            ks = []
-            for key in rng.sample(MIXED_KEYS, rng.randint(2, 5)):
+        def keys(lo, hi):
+            ks = list(rng.choice(KEY_CYCLES)) if rng.random() < 0.6 else []
+            for key in rng.sample(MIXED_KEYS, rng.randint(lo, hi)):
                 if not any(key == x for x in ks):          # 1 == True == 1.0 are one Python key
                     ks.append(key)
-            return {key: (mk(d - 1) if d > 0 and rng.random() < 0.3 else g_scalar(rng)) for key in ks}
+            rng.shuffle(ks)
+            return ks
+
+        def mk(d):
+            return {key: (mk(d - 1) if d > 0 and rng.random() < 0.25 else g_scalar(rng)) for key in keys(0, 3) or keys(2, 3)}
         a = mk(1)
         b = dict(a)
-        ks = list(b)
-        r = rng.random()
-        if r < 0.4 and ks:
-            b[rng.choice(ks)] = g_scalar(rng)
-        elif r < 0.7 and ks:
-            del b[rng.choice(ks)]
-        else:
+        for _ in range(rng.randint(1, 3)):                 # a near copy: change values, drop keys, add keys
+            ks = list(b)
+            r = rng.random()
+            if r < 0.25 and ks:
+                b[rng.choice(ks)] = g_scalar(rng)
+            elif r < 0.45 and ks:
+                # a value moves to a new key while its old key gets another value (a tempting cross-key match)
+                k0, nk = rng.choice(ks), rng.choice(MIXED_KEYS)
+                if not any(nk == x for x in b) and not isinstance(b[k0], dict):
+                    b[nk], b[k0] = b[k0], g_scalar(rng)
+            elif r < 0.6 and ks:
+                del b[rng.choice(ks)]
+            else:
+                key = rng.choice(MIXED_KEYS)
+                if not any(key == x for x in b):
+                    b[key] = rng.choice([g_scalar(rng)] + [v for v in a.values() if not isinstance(v, dict)])
+        if rng.random() < 0.15:
             b = mk(1)
+        if not (yaml_ok(a) and yaml_ok(b)):
+            continue
         vs = [[a, b]] + [[permute(rng, a), permute(rng, b)] for _ in range(K - 1)]
-        items.append({'kind': 'perm', 'opts': list(sl.OPTION_SETS[k % 9]), 'vars': [[enc(x), enc(y)] for x, y in vs],
-                      'stream': 'mixed-keys', 'no_oracle': True, 'eps': ['json']})
+        items.append({'kind': 'perm', 'opts': list(sl.OPTION_SETS[k % 9] if k % 4 else sl.OPTION_SETS[3 * (k % 2)]),
+                      'vars': [[enc(x), enc(y)] for x, y in vs],
+                      'stream': 'mixed-keys', 'no_oracle': True, 'eps': MIXED_EPS, 'dir': workdir})
     return items
+
+
+def yaml_ok(v):
+    if isinstance(v, dict):
+        return all(yaml_ok(x) for x in v.values())
+    if isinstance(v, list):
+        return all(yaml_ok(x) for x in v)
+    if isinstance(v, float):
+        return v == v and abs(v) != float('inf')
+    return True
 
 
 def nontrivial(it):
@@ -365,7 +418,7 @@ def nontrivial(it):
 
 
 def pub(it):
-    return {k: it[k] for k in ('kind', 'opts', 'vars', 'l', 'i', 'j', 'no_oracle', 'ep', 'eps') if k in it}
+    return {k: it[k] for k in ('kind', 'opts', 'vars', 'l', 'i', 'j', 'no_oracle', 'ep', 'eps', 'stream') if k in it}
 
 
 # ------------------------------------------------------------------ check / replay
@@ -380,7 +433,7 @@ def open_findings():
     return fs
 
 
-def evaluate(run, wd, st, items, tag='cases', with_corr=True, count=True):
+def evaluate(run, wd, st, items, tag='cases', with_corr=True, count=True, domain_fn='in_domain'):
     res = common.run_impl('pC08', 'impl_case', items, timeout_item=300)
     ok = []
     for it, r in zip(items, res):
@@ -405,7 +458,7 @@ def evaluate(run, wd, st, items, tag='cases', with_corr=True, count=True):
         header = HEADER_SPEC
         terms = [case_term(it, r) for it, r in ok]
         wrap = lambda f: f'bad_cases {f}'                             # noqa: E731
-    evals = [wrap('in_domain'), wrap('holds_C08'), wrap('holds_C08_partial')]
+    evals = [wrap(domain_fn), wrap('holds_C08'), wrap('holds_C08_partial')]
     evals += [wrap(f'(fun c => negb ({kf} c))') for kf in KF_CLASSES]            # indices IN the class
     if use_model:
         evals.append('bad_cases corr_C08')
@@ -413,8 +466,8 @@ def evaluate(run, wd, st, items, tag='cases', with_corr=True, count=True):
     if err:
         run.violation({'kind': 'case-evaluation-failed', 'error': err}, no_input=True)
         return ok, None
-    return ok, {'domain': bad[0], 'holds': bad[1], 'partial': bad[2], 'classes': dict(zip(KF_CLASSES, bad[3:5])),
-                'corr': bad[5] if use_model else []}
+    return ok, {'domain': bad[0], 'holds': bad[1], 'partial': bad[2], 'classes': dict(zip(KF_CLASSES, bad[3:3 + len(KF_CLASSES)])),
+                'corr': bad[3 + len(KF_CLASSES)] if use_model else []}
 
 
 def report(run, ok, bad, known):
@@ -431,7 +484,7 @@ def report(run, ok, bad, known):
             it, r = ok[i]
             run.violation({'kind': 'holds_C08-false', 'input': pub(it), 'entry_point': it.get('ep', 'json'), 'observed': summary(it, r),
                            'note': 'cost / pairing changes with the order of keys, or a key-permuted copy is not equal at cost 0, '
-                                   'or swapping two unequal list elements costs 0 outside the open classes D4 / D16'})
+                                   'or swapping two unequal list elements costs 0 outside the open classes D4 / D16 / D40'})
         n_viol += 1
     for i in bad['domain']:
         if n_viol < 3:
@@ -441,16 +494,23 @@ def report(run, ok, bad, known):
         idx = hits.get(f['id'], [])
         if idx:
             it = ok[idx[0]][0]
-            run.known(f"{f['id']} {f['what']} [{len(idx)} case(s) in class {f.get('class')}, e.g. l={json.dumps(it['l'])[:100]} "
-                      f"i={it['i']} j={it['j']} opts={it['opts']}]")
+            eg = (f"l={json.dumps(it['l'])[:100]} i={it['i']} j={it['j']}" if it['kind'] == 'swap' else
+                  f"a={json.dumps(it['vars'][0][0])[:90]} b={json.dumps(it['vars'][0][1])[:90]} through {it.get('ep')}")
+            run.known(f"{f['id']} {f['what']} [{len(idx)} case(s) in class {f.get('class')}, e.g. {eg} opts={it['opts']}]")
     return hits
 
 
 def summary(it, r):
     if it['kind'] == 'swap':
         return {'cost': r['cost']}
-    return {'costs': [_top_cost(v['script']) for v in r['vars']], 'eq': [[v['eq_a'], v['eq_b']] for v in r['vars']],
-            'copy_costs': [[v['cost_a'], v['cost_b']] for v in r['vars']]}
+    costs = [_top_cost(v['script']) for v in r['vars']]
+    other = next((k for k, c in enumerate(costs) if c != costs[0]), None)
+    out = {'costs': costs, 'eq': [[v['eq_a'], v['eq_b']] for v in r['vars']],
+           'copy_costs': [[v['cost_a'], v['cost_b']] for v in r['vars']]}
+    if other is not None:          # for the reader of the replay: the two key orders whose costs differ
+        out['key_orders_with_different_cost'] = {'arrangement_0': it['vars'][0], 'cost_0': costs[0],
+                                                 f'arrangement_{other}': it['vars'][other], f'cost_{other}': costs[other]}
+    return out
 
 
 def check(tier, seed):
@@ -465,7 +525,7 @@ def check(tier, seed):
         common.proof_evidence(run, wd, PROP, st, THEOREMS)
         known = open_findings()
         items = gen_items(tier, rng)
-        ok, bad = evaluate(run, wd, st, items)
+        ok, bad = evaluate(run, wd, st, [it for it in items if it.get('stream') != 'mixed-keys'])
         hits = report(run, ok, bad, known) if bad else {}
         bad_corr = bad['corr'] if bad else []
         run.cov['traces_validated_against_impl'] = len(ok) if st['models_ok'] else 0
@@ -480,18 +540,25 @@ def check(tier, seed):
         run.cov['streams'] = streams
         ex = [it for it, _ in ok if it.get('stream') == 'exhaustive' and it.get('ep') == 'json']
         run.cov['exhaustive_cases_fully_enumerated'] = sum(1 for it in ex if it.get('all_covered'))
-        # mappings with keys of mixed type: outside the theorems, reported only
-        mixed = gen_mixed(tier, rng)
-        okm, badm = evaluate(run, wd, st, mixed, tag='mixed', with_corr=False, count=False)
+        # mappings with keys of mixed type (YAML files, Python objects): outside the theorems (string keys), inside the
+        # property: judged by the same holds_C08; no correspondence (the model's sort is defined for string keys only)
+        impl_dir = wd.file('impl')
+        os.makedirs(impl_dir, exist_ok=True)
+        mixed = [dict(it, dir=impl_dir, no_oracle=True, eps=it.get('eps', MIXED_EPS)) for it in items if it.get('stream') == 'mixed-keys']
+        mixed += gen_mixed(tier, rng, impl_dir)
+        okm, badm = evaluate(run, wd, st, mixed, tag='mixed', with_corr=False, domain_fn='in_domain_any_keys')
         if badm is not None:
+            hits_m = report(run, okm, badm, known)
+            for k, v in hits_m.items():
+                run.cov['known_finding_cases'][k] = run.cov['known_finding_cases'].get(k, 0) + len(v)
             differ = sum(1 for it, r in okm if it['opts'][0] != 'none' and any(v['ta'] != r['vars'][0]['ta'] or v['tb'] != r['vars'][0]['tb'] for v in r['vars']))
             run.cov['mixed_key_stream'] = {
-                'cases': len(okm), 'option_sets': 9, 'cases_auto_match': sum(1 for it, _ in okm if it['opts'][0] != 'none'),
-                'built_trees_depend_on_key_order_auto_match': differ,
-                'holds_C08_false': len(badm['holds']),
-                'first_failing': [{'input': pub(okm[i][0]), 'observed': summary(*okm[i])} for i in badm['holds'][:2]],
+                'cases': len(okm), 'entry_points': MIXED_EPS, 'cases_auto_match': sum(1 for it, _ in okm if it['opts'][0] != 'none'),
+                'built_trees_depend_on_key_order_auto_match': differ, 'holds_C08_false': len(badm['holds']),
+                'in_class_kf_C08_mixed_key_pairing': len(badm['classes']['kf_C08_mixed_key_pairing']),
                 'note': 'keys of mixed type (int/float/bool/str): LeafNode.__lt__ falls back to str() on TypeError, sorted() is then '
-                        'not canonical; no verdict is derived from this stream'}
+                        'not canonical; judged by holds_C08 (cost invariance, copy == at cost 0; pairing: open finding D40); '
+                        'no model correspondence for this stream'}
         if (st['broken'] or bad_corr) and not run.violations:
             more = gen_items('thorough', random.Random(seed * 7919 + 1))[:700]
             ok2, bad2 = evaluate(run, wd, st, more, tag='search')
@@ -531,6 +598,9 @@ def replay(path):
             common.regen()
             common.coq_project()
             common.coq_make(SPEC_TARGETS)
+        if it['kind'] == 'perm':
+            it = dict(it, dir=wd.file('impl'))
+            os.makedirs(it['dir'], exist_ok=True)
         r = common.run_impl('pC08', 'impl_case', [it], nproc=1, timeout_item=600)[0]
         print(json.dumps(r)[:3000])
         if 'ok' not in r:
